@@ -163,6 +163,8 @@ type creq struct {
 	err        error
 }
 
+var concBranches []*branch
+
 type concCase struct {
 	name  string
 	setup func(s *session, ls []*logDef) // initial state through a plain witness
@@ -180,6 +182,7 @@ func scenarioConcSel(t *traceWriter, rng *rand.Rand, onlyMultiLog bool) {
 	key := genLogKey(rng, "conc-log")
 	tr := newExplicitBranch("trunk", 12, nil, 0)
 	f5 := newExplicitBranch("f5", 12, tr, 5) // shares the first 5 leaves with the trunk
+	concBranches = []*branch{tr, f5}
 	wkeys := []witKey{genWitKey(rng, "cwit", "ed25519"), genWitKey(rng, "cwit", "cosigv1")}
 	cpOf := func(l *logDef, b *branch, n uint64) []byte { return signNote(cpText(l.origin, n, b.root(n)), key.signer) }
 	upd := func(l *logDef, b *branch, old, n uint64) *creq {
@@ -308,6 +311,11 @@ func buildConc(t *traceWriter, execNo int, storeKind, scratch string, key logKey
 		closeFn = func() { db.Close(); os.Remove(path) }
 	}
 	s := newSessionWith(t, storeKind, defs, wkeys, inner, nil)
+	for _, l := range defs { // ground truth for the split-view monitor
+		for _, b := range concBranches {
+			s.truth(l, b, seq(1, 10))
+		}
+	}
 	return s, defs, inner, closeFn
 }
 
